@@ -116,15 +116,19 @@ SuccOK(ev, want) ==
 TMake ==
   /\ IsEvent("make")
   /\ LET ev == Trace[l] m == DecM(ev.m) got == PosOfJson(ev.pos) IN
-       /\ Expect(m \in Pseudo(pos), ev, "INFRA/move-not-pseudo-legal", "", [m |-> ev.m, fen |-> FenOf(pos)])
+       \* every move in a trace comes from the engine's own generator: one the engine treats as playable
+       \* (no "illegal" mark) must be legal, one it makes-and-undoes as illegal must be pseudo-legal but illegal
        /\ IF m \in Pseudo(pos) /\ LegalM(pos, m)
           THEN LET want == Make(pos, m) IN
+               /\ Expect(~Has(ev, "illegal"), ev, "C01/legal-move-rejected", "", [m |-> ev.m, fen |-> FenOf(pos)])
                /\ SuccOK(ev, want)
-               \* re-synchronise on the implementation's state
-               /\ MakeMove(m, got, SnapOf(ev), Entry(got, ev))
-               /\ Obs(ev, got, hist')
+               \* the specification keeps ITS OWN successor: every later observation is judged against the
+               \* position the rules prescribe, not against whatever the implementation has drifted to
+               /\ MakeMove(m, want, SnapOf(ev), Entry(want, ev))
+               /\ Obs(ev, want, hist')
           ELSE \* pseudo-legal but illegal (the search makes and immediately undoes these): only the undo is judged
                /\ Expect(Has(ev, "illegal"), ev, "C01/illegal-move-played", "", [m |-> ev.m, fen |-> FenOf(pos)])
+               /\ Expect(m \in Pseudo(pos), ev, "C05/generated-move-not-pseudo-legal", "", [m |-> ev.m, fen |-> FenOf(pos)])
                /\ MakeMove(m, got, SnapOf(ev), Entry(got, ev))
   /\ UNCHANGED rootBad
 
@@ -133,8 +137,8 @@ TNullMake ==
   /\ LET ev == Trace[l] got == PosOfJson(ev.pos) want == NullMake(pos) IN
        /\ Expect(~InCheck(pos.bd, pos.stm), ev, "INFRA/null-move-in-check", "", [fen |-> FenOf(pos)])
        /\ Expect(got = want, ev, "C03/null-successor", "", [want |-> FenOf(want), got |-> FenOf(got)])
-       /\ MakeNull(got, SnapOf(ev), Entry(got, ev))
-       /\ ObsHash(ev, got, hist')
+       /\ MakeNull(want, SnapOf(ev), Entry(want, ev))
+       /\ ObsHash(ev, want, hist')
   /\ UNCHANGED rootBad
 
 \* UndoMove / UndoNullMove: pops the specification's stack; the logged snapshot (position, both counters,
@@ -151,7 +155,7 @@ TUndo(kind) ==
                       [want |-> FenOf(PosOfJson(top.before.p)), got |-> FenOf(PosOfJson(got.p)), m |-> EncM(top.m)])
             /\ Expect(got.hash = top.before.hash, ev, "C03/hash-not-restored", "", [m |-> EncM(top.m)])
             /\ Expect(got.hashes = top.before.hashes, ev, "C03/hash-history-not-restored", "", [m |-> EncM(top.m), want |-> Len(top.before.hashes), got |-> Len(got.hashes)])
-            /\ Undo(PosOfJson(ev.pos))
+            /\ Undo(top.bpos)
             /\ ObsHash(ev, pos', hist')
   /\ UNCHANGED rootBad
 
